@@ -775,8 +775,8 @@ impl Check for ClientCheck {
                     }));
                 }
                 let (n, len) = match tier {
-                    Tier::Quick => (40_000, 40),
-                    Tier::Thorough => (1_500_000, 40),
+                    Tier::Quick => (200_000, 40),
+                    Tier::Thorough => (5_000_000, 40),
                 };
                 {
                     let b = |t: &str, pre: u8, prints: u8| OpSpec::Begin { token: t.into(), res: ResOutcome { pre, status: StatusMode::WithReceipt, prints, end: EndSpec::Completion } };
@@ -827,8 +827,8 @@ impl Check for ClientCheck {
                     p
                 }));
                 let n = match tier {
-                    Tier::Quick => 60_000,
-                    Tier::Thorough => 2_000_000,
+                    Tier::Quick => 300_000,
+                    Tier::Thorough => 6_000_000,
                 };
                 fams.push(Family::new("prng_amounts_tokens_receipts_status_fields", n, false, |_, rng| value_plan(rng)));
                 fams.push(Family::new("prng_values_under_transport_faults", n / 3, false, |_, rng| {
@@ -913,8 +913,8 @@ impl Check for ClientCheck {
                     }])
                 }));
                 let n = match tier {
-                    Tier::Quick => 40_000,
-                    Tier::Thorough => 1_500_000,
+                    Tier::Quick => 200_000,
+                    Tier::Thorough => 5_000_000,
                 };
                 fams.push(Family::new("prng_cards_repeated_presentations", n, false, |_, rng| {
                     let c = random_card(rng);
@@ -1041,8 +1041,8 @@ impl Check for ClientCheck {
                     move |i, _| history_at(i, &TOKENS3, depth),
                 ));
                 let n = match tier {
-                    Tier::Quick => 40_000,
-                    Tier::Thorough => 1_500_000,
+                    Tier::Quick => 200_000,
+                    Tier::Thorough => 5_000_000,
                 };
                 fams.push(Family::new("random_walks_with_cleanup_variants", n, false, |_, rng| random_walk(rng, &TOKENS5, 24)));
                 fams.push(Family::new("random_walks_under_transport_faults", n / 2, false, |_, rng| faulty_walk(rng, &TOKENS5, 12)));
@@ -1135,8 +1135,8 @@ impl Check for ClientCheck {
                     }));
                 }
                 let n = match tier {
-                    Tier::Quick => 30_000,
-                    Tier::Thorough => 800_000,
+                    Tier::Quick => 150_000,
+                    Tier::Thorough => 3_000_000,
                 };
                 fams.push(Family::new("random_walks_with_aborts_under_faults", n / 3, false, |_, rng| {
                     let mut p = faulty_walk(rng, &TOKENS3, 8);
